@@ -259,6 +259,8 @@ def visit(
 
                 if result is SKIP or result is False:
                     if not is_leaving:
+                        if not stack:
+                            break  # the root node has been skipped
                         path_pop()
                         continue
 
@@ -268,6 +270,8 @@ def visit(
                         if isinstance(result, Node):
                             node = result
                         else:
+                            if not stack:
+                                break  # the root node has been removed
                             path_pop()
                             continue
             else:
